@@ -233,11 +233,14 @@ class Runner:
         return shards, errs
 
     def run_batch(self, outdir, n, variant, oc, seed=None):
+        t0 = time.time()
         rc, out = self.harness(outdir, n, variant, seed=seed)
+        t1 = time.time()
         if rc != 0:
             oc.errors.append("go harness failed (rc=%d):\n%s" % (rc, out[-3000:]))
             return
         shards, errs = self.drive(outdir, variant)
+        log("[%s] batch %s: harness %.1fs, model driver %.1fs" % (self.cfg.prop, os.path.basename(outdir), t1 - t0, time.time() - t1))
         oc.errors += errs
         for s in shards:
             compare_shard(self.cfg, os.path.join(outdir, "ops-%s.txt" % s), os.path.join(outdir, "impl-%s.txt" % s),
